@@ -43,9 +43,46 @@ WRow(e, bom, k) ==
    p32 |-> [j \in DOMAIN WParts[k] |-> EncodeCps(32, WParts[k][j])]]
 WRows == SetToSeq({WRow(e, bom, k) : e \in Schemes, bom \in BOOLEAN, k \in DOMAIN WParts})
 
+\* ---- CSV documents through the stream entry point: header "a,b", rows "<name>,<note>", every line ended by CRLF (the last one
+\* only when fb); the document has EXACTLY n characters (all ASCII unless `na`: then one note starts with U+20AC), so that the
+\* encoded length sweeps every value around the multiples of the chunk size.  Lines of 7 characters, the last one takes the rest.
+CsvHeader == CsvHeaderAB
+CsvRows(n, fb, na) ==
+  LET t     == n + (IF fb THEN 0 ELSE 2)          \* length if every line were terminated
+      r     == t - 5
+      nfull == IF r >= 12 THEN (r - 5) \div 7 ELSE 0
+      rest  == r - (7 * nfull)
+      nrows == IF r = 0 THEN 0 ELSE nfull + 1
+      Name(k) == <<107 + (k % 10)>>
+      Note(k, len) == [j \in 1..len |-> IF na /\ k = 1 /\ j = 1 THEN \h20AC ELSE 65 + ((k + j) % 26)]
+  IN [k \in 1..nrows |-> << Name(k), Note(k, IF k <= nfull THEN 3 ELSE rest - 4) >>]
+CsvLenOK(n, fb) == LET r == n + (IF fb THEN 0 ELSE 2) - 5 IN r = 0 \/ r >= 5
+CsvNs == IF IOEnv.CSVMODE = "none" THEN {}
+         ELSE IF C = 32 THEN (IF IOEnv.CSVMODE = "quick" THEN 3..72 ELSE 3..140)
+         ELSE UNION {(k - (IF IOEnv.CSVMODE = "quick" THEN 2 ELSE 5))..(k + (IF IOEnv.CSVMODE = "quick" THEN 2 ELSE 5)) :
+                     k \in (IF IOEnv.CSVMODE = "quick" THEN {64, 128, 256, 512} ELSE {64, 128, 192, 256, 384, 512, 768, 1024})}
+CsvRow(e, bom, n, fb, na) ==
+  LET rows == CsvRows(n, fb, na)  text == CsvRender(CsvHeader, rows, fb) IN
+  [csv |-> TRUE, e |-> e, bom |-> bom, fb |-> fb, n |-> n, rows |-> rows, bytes |-> WriterBytes(e, bom, text), C |-> C]
+CsvScenarios == SetToSeq({CsvRow(e, bom, n, fb, na) : e \in Schemes, bom \in BOOLEAN, fb \in BOOLEAN, na \in BOOLEAN,
+                          n \in {x \in CsvNs : CsvLenOK(x, TRUE) \/ CsvLenOK(x, FALSE)}} )
+CsvScenariosOK == SelectSeq(CsvScenarios, LAMBDA r : CsvLenOK(r.n, r.fb))
+
+\* ---- DetectEncoding(std::istream&, skip): the text follows a preamble of p bytes that the caller has consumed
+DPre == IF IOEnv.DMODE = "none" THEN {} ELSE {0, 1, 3, 16, 200}
+DTexts == IF IOEnv.DMODE = "quick" THEN {Text(0, 2, 1), Text(3, 1, 2), Text(40, 2, 1), Text(2, 3, 1)}
+          ELSE {Text(f, b, t) : f \in {0, 1, 3, 31, 40, 130}, b \in {1, 2, 3, 5}, t \in {1, 2}} \cup {<<>>}
+DRow(e, bom, cps, p) ==
+  [det |-> TRUE, e |-> e, bom |-> bom, cps |-> cps, p |-> p,
+   pre |-> [k \in 1..p |-> IF k = 1 THEN 255 ELSE IF k = 2 THEN 254 ELSE 35],       \* the preamble even looks like a BOM
+   bytes |-> WriterBytes(e, bom, cps)]
+DRows == SetToSeq({DRow(e, bom, cps, p) : e \in Schemes, bom \in BOOLEAN, cps \in DTexts, p \in DPre})
+
+ASSUME IOEnv.CSVOUT = "" \/ ndJsonSerialize(IOEnv.CSVOUT, CsvScenariosOK)
+ASSUME IOEnv.DOUT = "" \/ ndJsonSerialize(IOEnv.DOUT, DRows)
 ASSUME ndJsonSerialize(IOEnv.OUT, Rows)
 ASSUME IOEnv.WOUT = "" \/ ndJsonSerialize(IOEnv.WOUT, WRows)
-ASSUME PrintT(<<"ROWS", ToJson([n |-> Len(Rows), w |-> Len(WRows)])>>)
+ASSUME PrintT(<<"ROWS", ToJson([n |-> Len(Rows), w |-> Len(WRows), csv |-> IF IOEnv.CSVOUT = "" THEN 0 ELSE Len(CsvScenariosOK), det |-> IF IOEnv.DOUT = "" THEN 0 ELSE Len(DRows)])>>)
 
 VARIABLE dummy
 Init == dummy = 0
